@@ -45,6 +45,13 @@ type Bus struct {
 	// FailSend makes Publish fail for the envelopes it selects: the sender gets
 	// an error and nothing is delivered (a connection fault at send time).
 	FailSend func(from, to string, e *wire.Envelope) bool
+	// Inner, if set, is a real bus of the library (wire.LocalBus) that carries
+	// the deliveries: the simulated bus keeps the naming, re-serialisation,
+	// taps, send faults and the delivery delay, then hands the envelope to
+	// Inner.Publish with the sender's context and returns what that returns.
+	// Loss, duplication, FIFO ordering and asynchronous sends are not
+	// available in this mode.
+	Inner wire.Bus
 	// StallSendP: this share of the failing sends does not fail at once; the
 	// connection stalls, Publish returns when the sender's context ends and
 	// reports that context's error (only for contexts that have a deadline)
@@ -106,6 +113,9 @@ func (b *Bus) SubscribeClient(c wire.Consumer, addr map[wallet.BackendID]wire.Ad
 		}
 		b.mu.Unlock()
 	})
+	if b.Inner != nil {
+		return b.Inner.SubscribeClient(c, addr)
+	}
 	return nil
 }
 
@@ -243,6 +253,28 @@ func (b *Bus) Publish(ctx context.Context, e *wire.Envelope) error {
 		return nil // "guaranteed to be eventually delivered" is what a lossy network breaks
 	}
 	d := b.S.Delay(key, b.MinDelay, b.MaxDelay)
+	if b.Inner != nil {
+		if !b.S.UnderStdMutex() {
+			t := time.NewTimer(d)
+			defer t.Stop()
+			select {
+			case <-t.C:
+			case <-ctx.Done():
+				b.S.Event(from, "send-timeout", desc)
+				return ctx.Err()
+			}
+		}
+		if b.Sink != nil && b.Sink(to, e2) {
+			b.S.Event(to, "recv:"+msgType(e.Msg), desc+" <- "+from+" (taken by the driver)")
+			return nil
+		}
+		b.S.Event(to, "recv:"+msgType(e.Msg), desc+" <- "+from+" (through the library's local bus)")
+		err := b.Inner.Publish(ctx, e2)
+		if err != nil {
+			b.S.Event(from, "send-error", desc+" -> "+to+" [local bus: "+err.Error()+"]")
+		}
+		return err
+	}
 	if b.Fifo {
 		b.mu.Lock()
 		at := b.S.Now() + d
